@@ -488,6 +488,24 @@ TEXT_EDITS = [
     ('mps.py', "        if len(self.A) == 0:\n            return 1\n\n        if mode == 'left':\n            for i in range(len(self.A) - 1):\n                self.A[i], self.A[i+1], self.qD[i+1] = local_orthonormalize_left_qr(self.A[i], self.A[i+1], self.qd, self.qD[i:i+2])",
      "        if len(self.A) == 0:\n            return 1\n        if len(self.A) == 1 and self.A[0].size == 1:\n            return abs(self.A[0].item())\n        if mode == 'left':\n            for i in range(len(self.A) - 1):\n                self.A[i], self.A[i+1], self.qD[i+1] = local_orthonormalize_left_qr(self.A[i], self.A[i+1], self.qd, self.qD[i:i+2])",
      'violation', ['C01'], 'MPS.orthonormalize: early return that bypasses the sweep'),
+    ('mps.py', '            v = v * s[:, None]', '            v = np.diag(s) @ v', 'silent', ['C13', 'C02'],
+     'from_vector: singular values applied as a diagonal matrix (benign)'),
+    ('mps.py', '            mps.qD[i + 1] = np.zeros(len(s), dtype=int)', '            mps.qD[i + 1] = np.zeros(len(idx), dtype=int)', 'silent',
+     ['C13', 'C02'], 'from_vector: label length taken from the retained index set (benign)'),
+    ('mps.py', '            u = u[:, idx]\n            v = v[idx, :]\n            s = s[idx]', '            u, v, s = u[:, idx], v[idx, :], s[idx]',
+     'silent', ['C13', 'C02', 'C12'], 'from_vector: truncation written as one tuple assignment (benign)'),
+    ('mps.py', '            v = v * s[:, None]', '            v = np.diag(s**2) @ v', 'violation', ['C13'],
+     'from_vector: squared singular values carried to the right'),
+    ('bond_ops.py', '        Dprev = D\n        D += Qsub.shape[1]\n\n        Q[i0:i1, Dprev:D] = Qsub\n        R[Dprev:D, j0:j1] = Rsub\n        qinterm[Dprev:D] = qn',
+     '        Dnext = D + Qsub.shape[1]\n\n        Q[i0:i1, D:Dnext] = Qsub\n        R[D:Dnext, j0:j1] = Rsub\n        qinterm[D:Dnext] = qn\n        D = Dnext',
+     'silent', ['C11', 'C01'], 'qr: counter-next spelling of the intermediate offset (benign)'),
+    ('bond_ops.py', '    Q = np.zeros((A.shape[0], max_interm_dim), dtype=A.dtype)\n    R = np.zeros((max_interm_dim, A.shape[1]), dtype=A.dtype)',
+     '    m, n = A.shape\n    Q = np.zeros((m, max_interm_dim), dtype=A.dtype)\n    R = np.zeros((max_interm_dim, n), dtype=A.dtype)',
+     'silent', ['C11', 'C01'], 'qr: shape unpacked into locals (benign)'),
+    ('bond_ops.py', '        Q = Q[np.argsort(idx0), :]', '        Q = Q[np.argsort(idx0)]', 'silent', ['C11'],
+     'qr: one-axis row index (benign)'),
+    ('bond_ops.py', '        Q = Q[np.argsort(idx0), :]', '        Q = Q[np.argsort(idx1), :]', 'violation', ['C11'],
+     'qr: rows un-sorted with the column permutation'),
     ('mps.py', '                mask = qnumber_outer_sum([self.qd, self.qD[i], -self.qD[i+1]])', '                mask = qnumber_outer_sum([self.qd, self.qD[i], -self.qD[i]])',
      'violation', ['C02'], 'MPS.__init__: mask built from the wrong label'),
 ]
